@@ -41,6 +41,8 @@ fn main() {
     }
     let code = match id {
         "C01" => drive::<vcore::c01::C01>(&args),
+        "C02" => drive::<vcore::c02::C02>(&args),
+        "C15" => drive::<vcore::c15::C15>(&args),
         _ => {
             eprintln!("unknown property id {id}");
             2
